@@ -828,6 +828,9 @@ fn format_split_op(d: usize, coord: usize, tol: f64, min: f32, max: f32, ws: &[i
 }
 
 pub fn run_op(ctx: &mut Ctx, op: &str) {
+    if ctx.hang_limit_reached() {
+        return;
+    }
     match parse_op(op) {
         None => {
             ctx.count("bad-op");
